@@ -240,3 +240,85 @@ Inductive subseq {A : Type} : list A -> list A -> Prop :=
   | sub_nil : forall l, subseq [] l
   | sub_take : forall x l1 l2, subseq l1 l2 -> subseq (x :: l1) (x :: l2)
   | sub_drop : forall x l1 l2, subseq l1 l2 -> subseq l1 (x :: l2).
+
+(* ---------- the comment walkers ---------- *)
+(* What they read of a file, supplied by the converter next to the node tree:
+   c_groups      f.Comments: per group its comments (1 + offset, text starts with "/*")
+   c_decl_range  (Pos(), End()) of every top-level declaration, in the order of [decls]
+   c_docs        the Doc field of declarations, specs and fields: (tag_code, position of the owner) -> (position, length) of the group *)
+Record comments := {
+  c_groups : list (list (N * bool));
+  c_decl_range : list (N * N);
+  c_docs : list (N * N * (N * N))
+}.
+
+Definition flush_group (acc : list (N * bool)) : list (list (N * bool)) :=
+  match acc with [] => [] | _ => [acc] end.
+
+(* visitCommentGroups: runs of // comments stay together, every /* */ comment is shown alone *)
+Fixpoint split_groups (l acc : list (N * bool)) : list (list (N * bool)) :=
+  match l with
+  | [] => flush_group acc
+  | c :: r => if snd c then (flush_group acc ++ [[c]] ++ split_groups r [])%list else split_groups r (acc ++ [c])%list
+  end.
+
+Definition walk_comments (cs : comments) : list (list (N * bool)) :=
+  flat_map (fun g => split_groups g []) (c_groups cs).
+
+Definition group_pos (g : list (N * bool)) : N := match g with c :: _ => fst c | [] => 0 end.
+
+(* localCommentWalker: for every accepted FuncDecl, the groups with decl.Pos() <= cg.Pos() <= decl.End() *)
+Definition walk_local_comments (enter : node -> bool) (f : file) (cs : comments) : list (list (N * bool)) :=
+  flat_map (fun dr : node * (N * N) =>
+              let d := fst dr in let r := snd dr in
+              if is_tag TFuncDecl d && enter d then
+                flat_map (fun g => if N.leb (fst r) (group_pos g) && N.leb (group_pos g) (snd r) then split_groups g [] else []) (c_groups cs)
+              else []) (combine (decls f) (c_decl_range cs)).
+
+Fixpoint doc_lookup (tbl : list (N * N * (N * N))) (code pos : N) : list (N * N) :=
+  match tbl with
+  | [] => []
+  | (c, p, g) :: r => if N.eqb c code && N.eqb p pos then [g] else doc_lookup r code pos
+  end.
+
+Definition doc_of (cs : comments) (n : node) : list (N * N) := doc_lookup (c_docs cs) (tag_code n) (npos n).
+
+Definition is_import_spec (n : node) : bool := N.eqb (other_kind n) 15.
+
+(* docCommentWalker: FuncDecl.Doc; GenDecl.Doc, then per spec its Doc and, for a TypeSpec, the Doc of every Field inside the type *)
+Definition walk_doc_comments (f : file) (cs : comments) : list (N * N) :=
+  flat_map (fun d =>
+              match ntag d with
+              | TFuncDecl => doc_of cs d
+              | TGenDecl =>
+                  (doc_of cs d ++
+                   flat_map (fun spec =>
+                               if is_import_spec spec || is_tag TValueSpec spec then doc_of cs spec
+                               else if is_tag TTypeSpec spec then
+                                 (doc_of cs spec ++
+                                  match rev (kids spec) with
+                                  | ty :: _ => flat_map (doc_of cs) (filter (is_tag TField) (pre ty))
+                                  | [] => []
+                                  end)%list
+                               else []) (kids d))%list
+              | _ => []
+              end) (decls f).
+
+Definition groups_obs (l : list (list (N * bool))) : list (N * N) :=
+  map (fun g => (group_pos g, (1000 + N.of_nat (length g))%N)) l.
+
+Definition cwalker_obs (name : string) (f : file) (cs : comments) : option (list (N * N)) :=
+  if String.eqb name "comment" then Some (groups_obs (walk_comments cs))
+  else if String.eqb name "localcomment" then Some (groups_obs (walk_local_comments decl_entered f cs))
+  else if String.eqb name "doccomment" then Some (map (fun g : N * N => (fst g, (1000 + snd g)%N)) (walk_doc_comments f cs))
+  else None.
+
+Definition cwalk_detail (f : file) (cs : comments) (observed : list (string * N * option (list (N * N)))) : list (string * obs) :=
+  flat_map (fun e =>
+              match e with
+              | (name, policy, seen) =>
+                  match cwalker_obs name f cs, seen with
+                  | Some m, Some r => if list_eqb pair_eqb m r then [] else [(String.append "walker " name, Some [policy])]
+                  | _, _ => [(String.append "walker " name, Some [policy])]
+                  end
+              end) observed.
